@@ -64,8 +64,8 @@ Check c08_payload_round_trip.
 Definition ex_rd : reply_data :=
   {| rd_reply_id := "ON_DONE_REPLY_ID"; rd_handler_id := "on_done";
      rd_handlers := [("fail_1", ROError); ("ok_2", ROSuccess)]; rd_data := None;
-     rd_payload := [{| rf_name := "p"; rf_ty := "u32"; rf_data := None; rf_payload := false |};
-                    {| rf_name := "q"; rf_ty := "String"; rf_data := None; rf_payload := false |}] |}.
+     rd_payload := [{| rf_name := "p"; rf_ty := "u32"; rf_data := None; rf_payload := false; rf_bad := false |};
+                    {| rf_name := "q"; rf_ty := "String"; rf_data := None; rf_payload := false; rf_bad := false |}] |}.
 
 Example c08_example :
   cw_reply_on ex_rd = ROAlways /\
